@@ -257,6 +257,14 @@ func (r *Report) Fail(kind string, kf []string, c interface{}, detail map[string
 	r.Failures = append(r.Failures, Failure{Kind: kind, KF: kf, Case: c, Detail: detail})
 }
 
+// ShouldStop tells long loops to end early once enough property violations have been recorded
+// (every further case of a deadlocking mutant costs a timeout).
+func (r *Report) ShouldStop() bool {
+	r.mu.Lock()
+	defer r.mu.Unlock()
+	return r.Histogram["fail:impl_ne_spec"] >= 12
+}
+
 func (r *Report) NumFailures() int { r.mu.Lock(); defer r.mu.Unlock(); return len(r.Failures) }
 
 func (r *Report) Write(path string) error {
